@@ -273,6 +273,57 @@ PEER_HANDLERS = [
 ]
 
 
+def scan_task_sites(src_root, ex: Explorer):
+    """INV-slot by construction: every task the transfer manager starts is stored in one of the two slots of a transfer (the only handles
+    abort / pause / remove cancel).  Scan of transfer/manager.py: an `asyncio.create_task(...)` is (a) the value assigned to `<t>._transfer_task`
+    / `<t>._remotely_queue_task`, or (b) bound to a local that is assigned to a slot in the same function, or (c) returned by a helper
+    whose every call is the value of such an assignment.  A task kept anywhere else survives the cancellation of the transfer."""
+    import ast
+    src, _ = source(src_root)
+    mod = src.module('transfer.manager')
+    SLOTS = ('_transfer_task', '_remotely_queue_task')
+    ctx = Ctx(ex, [])
+    funcs = [n for n in ast.walk(mod.tree) if isinstance(n, (ast.FunctionDef, ast.AsyncFunctionDef))]
+
+    def is_ct(n):
+        return isinstance(n, ast.Call) and ast.unparse(n.func) in ('asyncio.create_task', 'asyncio.ensure_future', 'create_task')
+
+    def slot_assign_of(fn, value_pred):
+        return any(isinstance(st, ast.Assign) and value_pred(st.value) and any(isinstance(t, ast.Attribute) and t.attr in SLOTS for t in st.targets)
+                   for st in ast.walk(fn))
+    bad, n_sites = [], 0
+    for fn in funcs:
+        for st in ast.walk(fn):
+            for call in [c for c in ast.iter_child_nodes(st) if is_ct(c)] if isinstance(st, (ast.Assign, ast.Return, ast.Expr, ast.AnnAssign)) else []:
+                n_sites += 1
+                ok = False
+                if isinstance(st, ast.Assign) and any(isinstance(t, ast.Attribute) and t.attr in SLOTS for t in st.targets):
+                    ok = True
+                elif isinstance(st, (ast.Assign, ast.AnnAssign)):
+                    names = [t.id for t in (st.targets if isinstance(st, ast.Assign) else [st.target]) if isinstance(t, ast.Name)]
+                    ok = any(slot_assign_of(fn, lambda v, nm=nm: isinstance(v, ast.Name) and v.id == nm) for nm in names)
+                    if not ok and names:
+                        ok = any(isinstance(r, ast.Return) and isinstance(r.value, ast.Name) and r.value.id in names for r in ast.walk(fn)) and \
+                            all_callers_store(funcs, fn.name, SLOTS)
+                elif isinstance(st, ast.Return):
+                    ok = all_callers_store(funcs, fn.name, SLOTS)
+                if not ok:
+                    bad.append(f'{fn.name}:{call.lineno}')
+    ctx.prove('C06.inv-slot.task-sites', n_sites >= 2 and not bad, f'{n_sites} task creations in transfer/manager.py; not stored in a slot of the transfer: {bad}')
+
+
+def all_callers_store(funcs, name, slots):
+    import ast
+    calls = []
+    for fn in funcs:
+        for st in ast.walk(fn):
+            if isinstance(st, (ast.Assign, ast.Expr, ast.Return, ast.AnnAssign)):
+                v = getattr(st, 'value', None)
+                if isinstance(v, ast.Call) and isinstance(v.func, ast.Attribute) and v.func.attr == name:
+                    calls.append(isinstance(st, ast.Assign) and any(isinstance(t, ast.Attribute) and t.attr in slots for t in st.targets))
+    return bool(calls) and all(calls)
+
+
 def prove_abort_records_reason(src_root, ex: Explorer):
     """abort(reason) of every state that accepts it stores the reason as the ABORT reason and leaves the fail reason alone: the re-evaluation
     after share / block / friend changes (C08.evaluate.table) re-queues an aborted upload unless its abort reason says the USER asked for
@@ -425,7 +476,7 @@ def prove_relies_on(src_root, ex: Explorer, which):
 
 def items(src_root, tier):
     return [('relies', 'race'), ('relies', 'attempts'), ('relies', 'evaluate'), ('slot', None), ('assigns', None), ('callbacks', None), ('cancel', None), ('queue_remotely', None), ('request_site', None), ('remove', None),
-            ('stale', None), ('peer-messages', None), ('abort-reason', None)]
+            ('stale', None), ('peer-messages', None), ('abort-reason', None), ('task-sites', None)]
 
 
 def run_item(src_root, item, tier):
@@ -442,7 +493,7 @@ def run_item(src_root, item, tier):
             return res
         {'slot': prove_slot_selection, 'assigns': prove_manage_assigns, 'callbacks': prove_done_callbacks, 'cancel': prove_cancel_all,
          'queue_remotely': prove_queue_remotely, 'request_site': prove_transfer_request_site, 'remove': prove_remove,
-         'stale': prove_stale_dispatch, 'peer-messages': prove_peer_messages_after_stop, 'abort-reason': prove_abort_records_reason}[kind](src_root, ex)
+         'stale': prove_stale_dispatch, 'peer-messages': prove_peer_messages_after_stop, 'abort-reason': prove_abort_records_reason, 'task-sites': scan_task_sites}[kind](src_root, ex)
     except Unsupported as e:
         res.errors.append(f'{kind}: unsupported: {e}')
     collect(res, ex)
